@@ -1461,13 +1461,65 @@ func verifyGitObjectAndAttestationsUsingVerifiers(ctx context.Context, verifiers
 	if verifiedUsing != "" {
 		if authenticatedPrincipalIDs != nil {
 			// Global rules consider every authenticated principal
-			authenticatedPrincipalIDs.Extend(acceptedPrincipalIDs)
-			acceptedPrincipalIDs = authenticatedPrincipalIDs
+			acceptedPrincipalIDs = unifyAuthenticatedPrincipals(verifiers, verifiedUsing, authenticatedPrincipalIDs, acceptedPrincipalIDs)
 		}
 		return verifiedUsing, acceptedPrincipalIDs, rslEntrySignatureNeededForThreshold, nil
 	}
 
 	return "", nil, false, ErrVerifierConditionsUnmet
+}
+
+// unifyAuthenticatedPrincipals adds the principals accepted by the rule that was
+// met to those authenticated by the exhaustive verifier. The exhaustive verifier
+// counts a key once even when it is listed under several principals, and it may
+// have credited a signature to a different principal than the rule did. So, a
+// principal accepted by the rule is only added if none of its keys belong to a
+// principal that has already been counted: one signature must never count as
+// two principals towards a global rule's threshold.
+func unifyAuthenticatedPrincipals(verifiers []*SignatureVerifier, verifiedUsing string, authenticatedPrincipalIDs, acceptedPrincipalIDs *set.Set[string]) *set.Set[string] {
+	countedKeyIDs := set.NewSet[string]()
+	var acceptingVerifier *SignatureVerifier
+	for _, verifier := range verifiers {
+		if verifier.verifyExhaustively {
+			for _, principal := range verifier.principals {
+				if principal != nil && authenticatedPrincipalIDs.Has(principal.ID()) {
+					for _, key := range principal.Keys() {
+						countedKeyIDs.Add(key.KeyID)
+					}
+				}
+			}
+		} else if acceptingVerifier == nil && verifier.Name() == verifiedUsing {
+			acceptingVerifier = verifier
+		}
+	}
+	if acceptingVerifier == nil {
+		return authenticatedPrincipalIDs
+	}
+
+	for _, principal := range acceptingVerifier.principals {
+		if principal == nil || !acceptedPrincipalIDs.Has(principal.ID()) || authenticatedPrincipalIDs.Has(principal.ID()) {
+			continue
+		}
+
+		sharesKey := false
+		for _, key := range principal.Keys() {
+			if countedKeyIDs.Has(key.KeyID) {
+				sharesKey = true
+				break
+			}
+		}
+		if sharesKey {
+			slog.Debug(fmt.Sprintf("Principal '%s' shares a key with a principal that has already been counted, skipping...", principal.ID()))
+			continue
+		}
+
+		authenticatedPrincipalIDs.Add(principal.ID())
+		for _, key := range principal.Keys() {
+			countedKeyIDs.Add(key.KeyID)
+		}
+	}
+
+	return authenticatedPrincipalIDs
 }
 
 // addApproversToUsedPrincipals unifies the principals already counted by the
